@@ -371,7 +371,11 @@ def step (st : St Spec Content) (j : Json) : St Spec Content × Json :=
     let indet := new.any fun n => !deterministic n.spec
     let st0 := { st with ops := [] }
     let res := cook (sem w) fl indet new st0
-    (res.1, stateJson res.1 res.1.ops res.2)
+    -- `St.old` is the in-memory oldCheckoutState; what is persisted is what the last setDirectoryState of the
+    -- run wrote (a --clean-checkout invalidation alone is never written)
+    let wrote := res.1.ops.any (fun o => match o with | .setDirState _ => true | _ => false)
+    let st1 := if wrote then res.1 else { res.1 with old := if st0.wsMissing then [] else st0.old }
+    (st1, stateJson st1 st1.ops res.2)
   | "clean" =>
     let w := worldOf j
     let st0 := { st with ops := [] }
